@@ -388,10 +388,13 @@ func OP_NEW_MAP_Handler(v *VM) {
 	v.pc += w
 
 	m := val.Map(ty.(*types.Type).Map()).Map()
+	// 按字面量声明顺序写入, 重复的 key 后者覆盖前者 (与 closure/interp 一致)
+	kvs := make([]*val.Val, 2*sz)
+	for i := 2*sz - 1; i >= 0; i-- {
+		kvs[i] = v.Pop()
+	}
 	for i := 0; i < sz; i++ {
-		vl := v.Pop()
-		key := v.Pop()
-		m.V[key.Key()] = vl
+		m.V[kvs[2*i].Key()] = kvs[2*i+1]
 	}
 	v.Push(m.Vl())
 }
